@@ -294,7 +294,7 @@ func (d *differ) cv(path string, a, b *parser.ConstValue) bool {
 		if y.Double != nil && (*y.Double == *x.Double) {
 			return true
 		}
-		if y.Int != nil && float64(*y.Int) == *x.Double && int64(float64(*y.Int)) == *y.Int {
+		if y.Int != nil && float64(*y.Int) == *x.Double {
 			return true
 		}
 		return d.fail(path+".Double", cvDesc(x), cvDesc(y))
